@@ -17,11 +17,12 @@ variable {p : Prog} {ck : Bool} {B : Nat} {dA : Nat} {fa : FAddr} {fns : List FD
 
 /-- what the proofs need to know about the functions of the program -/
 structure FnsOK (p : Prog) (ck : Bool) (B dA : Nat) (fa : FAddr) (fns : List FDecl) : Prop where
-  placed : ∀ fd ∈ fns, PlacedAt p (faddr fa fd.name) (funcCode (cxOf p ck B dA) fa (faddr fa fd.name) fd.params fd.body)
-  inB : ∀ fd ∈ fns, faddr fa fd.name + (funcCode (cxOf p ck B dA) fa (faddr fa fd.name) fd.params fd.body).length ≤ B
+  placed : ∀ fd ∈ fns, PlacedAt p (faddr fa fd.name) (funcCode (cxOf p ck B dA) fa (faddr fa fd.name) fd.dfn fd.params fd.body)
+  inB : ∀ fd ∈ fns, faddr fa fd.name + (funcCode (cxOf p ck B dA) fa (faddr fa fd.name) fd.dfn fd.params fd.body).length ≤ B
   nodup : ∀ fd ∈ fns, fd.params.Nodup
-  wf : ∀ fd ∈ fns, wfS false fd.params fd.body = true
-  plain : ∀ fd ∈ fns, Core.plain fd.body = true
+  wf : ∀ fd ∈ fns, wfS fns fd.dfn fd.params fd.body = true
+  plain : ∀ fd ∈ fns, fd.dfn = false → Core.plain fns fd.body = true
+  dfnNoTry : ∀ fd ∈ fns, fd.dfn = true → noTry fd.body = true
 
 /-- faults are only defined in checked builds; a callee's stack check compares with the frame peak
 modulo the word, so the overflow verdict needs the peaks of the functions to be representable -/
@@ -43,29 +44,29 @@ Turing jump to the handler that is *not* taken needs to know the future: either 
 function: then the states in which the whole list can end never halt, because a Turing jump looks at
 the whole future, and programs with a `try/stop` have the words `try_fp` and `defeat` behind the
 entry frame. -/
-def Safe (p : Prog) (B dA ra : Nat) (lp : Jt) (md : Md) (st : Bool) (Γ : Gam) (env' : Env) (F D o pcEnd : Nat) (m : Mem) (res : Res) (s : S) : Prop :=
+def Safe (p : Prog) (B dA ra : Nat) (lp : Jt) (md : Md) (st : Bool) (fns : List FDecl) (Γ : Gam) (env' : Env) (F D o pcEnd : Nat) (m : Mem) (res : Res) (s : S) : Prop :=
   (md ≠ .you ∧ (lp.vd = true → ∃ v, md = .stop dA v) ∧ noTry s = true ∧
       (HaltW p md ∨ (lp.vd = true ∧ ∀ st', Post p B ra lp md Γ env' F D o pcEnd m res st' → ¬ Halts (sphinx p) st'))) ∨
-    (md = .you ∧ lp.vd = false ∧ youLevel st s = true ∧
+    (md = .you ∧ lp.vd = false ∧ youLevel st fns s = true ∧
       (st = true → dA = F + p.w ∧ F + 2 * p.w ≤ m.size ∧ F + 2 * p.w < 256 ^ p.w) ∧
       ∀ st', Post p B ra lp md Γ env' F D o pcEnd m res st' → ¬ Halts (sphinx p) st')
 
 theorem Safe.sub' {lp : Jt} {md : Md} {st : Bool} {Γ Γ' : Gam} {env' : Env} {F D ra o o' e e' : Nat} {m m1 : Mem} {res : Res} {s k : S}
-    (h : Safe p B dA ra lp md st Γ env' F D o e m res s)
-    (hnt : noTry s = true → noTry k = true) (hyl : youLevel st s = true → youLevel st k = true)
+    (h : Safe p B dA ra lp md st fns Γ env' F D o e m res s)
+    (hnt : noTry s = true → noTry k = true) (hyl : youLevel st fns s = true → youLevel st fns k = true)
     (km : Keep p.w m m1 (md.kb F p.w))
     (conv : ∀ st', Post p B ra lp md Γ' env' F D o' e' m res st' → Post p B ra lp md Γ env' F D o e m res st') :
-    Safe p B dA ra lp md st Γ' env' F D o' e' m1 res k := by
+    Safe p B dA ra lp md st fns Γ' env' F D o' e' m1 res k := by
   rcases h with ⟨hm, hv, h, hw⟩ | ⟨hm, hv, h1, hst, h2⟩
   · exact Or.inl ⟨hm, hv, hnt h, hw.imp id (fun hf => ⟨hf.1, fun st' hp => hf.2 st' (conv st' (hp.rebase km))⟩)⟩
   · exact Or.inr ⟨hm, hv, hyl h1, fun e => by rw [km.size]; exact hst e, fun st' hp => h2 st' (conv st' (hp.rebase km))⟩
 
 theorem Safe.sub {lp : Jt} {md : Md} {st : Bool} {Γ Γ' : Gam} {env' : Env} {F D ra o o' e e' : Nat} {m m1 : Mem} {res : Res} {s k : S}
-    (h : Safe p B dA ra lp md st Γ env' F D o e m res s)
-    (hnt : noTry s = true → noTry k = true) (hyl : youLevel st s = true → youLevel st k = true)
+    (h : Safe p B dA ra lp md st fns Γ env' F D o e m res s)
+    (hnt : noTry s = true → noTry k = true) (hyl : youLevel st fns s = true → youLevel st fns k = true)
     (km : Keep p.w m m1 F)
     (conv : ∀ st', Post p B ra lp md Γ' env' F D o' e' m res st' → Post p B ra lp md Γ env' F D o e m res st') :
-    Safe p B dA ra lp md st Γ' env' F D o' e' m1 res k := h.sub' hnt hyl km.kb conv
+    Safe p B dA ra lp md st fns Γ' env' F D o' e' m1 res k := h.sub' hnt hyl km.kb conv
 
 /-- what `cS_ok` concludes: a defeat halts the machine, except inside a `try/stop` body, where it
 leaves it at the handler -/
@@ -105,10 +106,10 @@ def StmtOK (p : Prog) (ck : Bool) (B dA : Nat) (fa : FAddr) (fns : List FDecl) (
       (s : S) (Γ : Gam) (env : Env) (pc o : Nat) (m : Mem) (env' : Env) (tr : List Ev) (res : Res),
       PlacedAt p pc (cS (cxOf p ck B dA) fa lp Γ pc o s) →
       pc + (cS (cxOf p ck B dA) fa lp Γ pc o s).length ≤ B →
-      SInv p md Γ env m F D o ra → Disj p.w Γ → wfS lp.vd (Γ.map Prod.fst) s = true →
+      SInv p md Γ env m F D o ra → Disj p.w Γ → wfS fns lp.vd (Γ.map Prod.fst) s = true →
       pkS p.w o s ≤ D → p.w ≤ o →
       exec (256 ^ p.w) (8 * p.w) fns p.w fuel D o env s = some (env', tr, res) → FaultOK ck fns p.w res →
-      Safe p B dA ra lp md sb Γ env' F D o (pc + (cS (cxOf p ck B dA) fa lp Γ pc o s).length) m res s →
+      Safe p B dA ra lp md sb fns Γ env' F D o (pc + (cS (cxOf p ck B dA) fa lp Γ pc o s).length) m res s →
       Concl p B ra lp md Γ env' F D o pc (pc + (cS (cxOf p ck B dA) fa lp Γ pc o s).length) m tr res
 
 end
